@@ -2,6 +2,7 @@ import FxVerif.Model.C16
 import FxVerif.Proofs.C16Sem
 import FxVerif.Proofs.C16Store
 import FxVerif.Model.C16Tx
+import FxVerif.Proofs.C16Tx
 import FxVerif.Proofs.C16Dep
 import FxVerif.Gen.C16Proto
 /-!
@@ -12,7 +13,7 @@ statement before it, or a new authority-carrying handler appears without one, `a
 -/
 namespace FxVerif.Props.C16
 open FxVerif.Gen.C16 FxVerif.Model.C16
-open FxVerif.Gen (C16Dep.impls C16Dep.helpers C16Dep.types C16Dep.unread C16Dep.wiring C16Dep.handlerPkgs C16Sem.proposalExec C16Sem.helpers C16Sem.impls C16Sem.types C16Sem.services C16Sem.registrations C16Sem.msgInfos C16Sem.updateStoreProg)
+open FxVerif.Gen (C16Dep.impls C16Dep.helpers C16Dep.types C16Dep.unread C16Dep.wiring C16Dep.handlerPkgs C16Sem.proposalExec C16Sem.helpers C16Sem.impls C16Sem.types C16Sem.services C16Sem.registrations C16Sem.msgInfos C16Sem.updateStoreProg C16Tx.runTxProg C16Tx.runMsgsStopsAtError)
 
 /-- obligation over the regenerated table: every handler is guarded, or forwards to a guarded one -/
 theorem all_handlers_guarded : handlers.all (fun h => shapeOk handlers h.shape) = true := by decide
@@ -204,7 +205,7 @@ identifies with `s`/`k`), other prefixes, hex, padding: all rejected with the st
 theorem routed_only_governance_string {σ : Type} (r : Registration) (hr : r ∈ C16Sem.registrations)
     (sv : Service) (hsv : sv ∈ C16Sem.services) (hpkg : sv.pkg = r.service)
     (mm : String × String) (hmm : mm ∈ sv.methods) (hmsg : mm.2 ≠ "")
-    (hkind : protectedAt prog 4 r.impl mm.1 ≠ some .addr)
+    (hkind : protectedAt prog 4 r.impl mm.1 = some .strict ∨ protectedAt prog 4 r.impl mm.1 = some .fold)
     (env : Env) (hgov : lowerAsciiStr env.gov = true) (auth : Str) (W : World σ) (payloadOk : Bool) (s : σ)
     (h1 : auth ≠ env.gov)
     (h2 : protectedAt prog 4 r.impl mm.1 = some .strict ∨ auth ≠ env.gov.map upperC) :
@@ -215,7 +216,9 @@ theorem routed_only_governance_string {σ : Type} (r : Registration) (hr : r ∈
     apply hrej
     simp only [relK, beq_eq_false_iff_ne, ne_eq]
     exact fun h => h1 h.symm
-  | addr => exact absurd hp hkind
+  | addr => rcases hkind with h | h <;> rw [hp] at h <;> cases h
+  | lenient => rcases hkind with h | h <;> rw [hp] at h <;> cases h
+  | evm20 => rcases hkind with h | h <;> rw [hp] at h <;> cases h
   | fold =>
     have hvb : vbDecodes C16Sem.msgInfos mm.2 = true := by
       have h := List.all_eq_true.mp fold_guards_behind_decoding_validate_basic r hr
@@ -247,7 +250,7 @@ checksum, 5→8 bit regrouping, prefix, address length) to the very address byte
 theorem routed_accepts_only_governance_account {σ : Type} (r : Registration) (hr : r ∈ C16Sem.registrations)
     (sv : Service) (hsv : sv ∈ C16Sem.services) (hpkg : sv.pkg = r.service)
     (mm : String × String) (hmm : mm ∈ sv.methods) (hmsg : mm.2 ≠ "")
-    (hkind : protectedAt prog 4 r.impl mm.1 ≠ some .addr)
+    (hkind : protectedAt prog 4 r.impl mm.1 = some .strict ∨ protectedAt prog 4 r.impl mm.1 = some .fold)
     (env : Env) (hgov : lowerAsciiStr env.gov = true) (auth : Str) (W : World σ) (payloadOk : Bool) (s : σ)
     (hacc : routed prog C16Sem.msgInfos env auth W payloadOk r.impl mm.1 mm.2 s ≠ (.err, s)) :
     accAddress env.cfg auth = accAddress env.cfg env.gov := by
@@ -257,6 +260,63 @@ theorem routed_accepts_only_governance_account {σ : Type} (r : Registration) (h
     · rw [h2]; exact accAddress_upper env.cfg env.gov hgov
     · exact absurd (routed_only_governance_string r hr sv hsv hpkg mm hmm hmsg hkind env hgov auth W payloadOk s h1
         (Or.inr h2)) hacc
+
+/-! ### why the guards have to compare STRINGS: what the byte-comparing guard kinds accept (round 4)
+
+The translator reads guards that decode first (`sdk.AccAddressFromBech32`, the lenient `fxtypes.ParseAddress`,
+`common.BytesToAddress` of the decoded bytes) into `.addrEq` / `.decEq`, the model interprets them (`relK`), and the
+obligations `handlers_compare_strings` / `registered_handlers_compare_strings` insist that no fx-core handler uses one.
+These theorems say what would be accepted otherwise — for ALL addresses, paddings and prefixes. -/
+
+/-- a guard that compares `common.BytesToAddress` of the decoded operands accepts EVERY account address whose bytes end
+with the 20 bytes of the governance account -/
+theorem evm20_accepts_suffix (cfg : AddrCfg) (gov a : Str) (pad g : List Nat) (hg : g.length = 20)
+    (hgov : accAddress cfg gov = some g) (ha : accAddress cfg a = some (pad ++ g)) :
+    relK cfg .evm20 gov a = true := by
+  have h0 : evmAddr g = g := by simpa using evmAddr_suffix [] g hg
+  simp [relK, decodeOr, decodeOrEmpty, hgov, ha, evmAddr_suffix pad g hg, h0]
+
+/-- …although it is a different account whenever the padding is not empty -/
+theorem suffix_is_other_account (cfg : AddrCfg) (gov a : Str) (pad g : List Nat) (hp : pad ≠ [])
+    (hgov : accAddress cfg gov = some g) (ha : accAddress cfg a = some (pad ++ g)) :
+    accAddress cfg a ≠ accAddress cfg gov := by
+  rw [hgov, ha]
+  intro h
+  have := congrArg List.length (Option.some.inj h)
+  simp only [List.length_append] at this
+  have : pad.length = 0 := by omega
+  exact hp (List.length_eq_zero_iff.mp this)
+
+/-- the address comparison after `sdk.AccAddressFromBech32` is exact on accounts -/
+theorem addr_guard_exact (cfg : AddrCfg) (gov a : Str) (hgov : (accAddress cfg gov).isSome = true)
+    (hne : accAddress cfg gov ≠ some []) (h : relK cfg .addr gov a = true) : accAddress cfg a = accAddress cfg gov := by
+  simp only [relK, decodeOrEmpty, beq_iff_eq] at h
+  cases hg : accAddress cfg gov with
+  | none => simp [hg] at hgov
+  | some g =>
+    cases ha : accAddress cfg a with
+    | none =>
+      simp only [hg, ha, Option.getD_some, Option.getD_none] at h
+      subst h; exact absurd hg hne
+    | some x => simp only [hg, ha, Option.getD_some] at h; rw [h]
+
+/-- the lenient decoder does not look at the prefix: two bech32 strings with the same data part decode alike whatever
+their human-readable parts are -/
+theorem lenient_ignores_prefix (cfg : AddrCfg) (a b : Str) (h1 h2 : Str) (d : List Nat) (bz : List Nat)
+    (ha : bechDecode a = some (h1, d)) (hb : bechDecode b = some (h2, d)) (hc : convert5to8 d = some bz) :
+    relK cfg .lenient a b = true := by
+  simp [relK, decodeOr, parseAddress, ha, hb, hc]
+
+example : protectedBody [] (fun _ _ => none)
+    [.nop "", .rejectIf (.not (.decodes .acc .reqAuthority)), .rejectIf (.not (.decEq .evm20 .reqAuthority .keeperAuthority)),
+      .work 3 ""] = some .evm20 := by decide
+example : relK { pref := strOf "cosmos", minLen := 1, maxLen := 255 } .evm20
+    (strOf "cosmos10d07y265gmmuvt4z0w9aw880jnsr700j6zn9kn")
+    (strOf "cosmos1qqqqqqqqqqqqqqqqqqq8khlz9d2yda7x9638hz7hrnhefcpl8heqsp02w9") = true := by decide +kernel
+example : relK { pref := strOf "cosmos", minLen := 1, maxLen := 255 } .addr
+    (strOf "cosmos10d07y265gmmuvt4z0w9aw880jnsr700j6zn9kn")
+    (strOf "cosmos1qqqqqqqqqqqqqqqqqqq8khlz9d2yda7x9638hz7hrnhefcpl8heqsp02w9") = false := by decide +kernel
+example : ∃ pad g : List Nat, g.length = 20 ∧ pad ≠ [] := ⟨[1], List.replicate 20 7, by decide, by decide⟩
 
 /-! ### handler level: the registered Msg servers called directly (no `ValidateBasic` in front) -/
 
@@ -342,9 +402,7 @@ theorem routed_accepts_only_governance_account_all {σ : Type} (r : Registration
   have h3 := List.all_eq_true.mp h2 mm hmm
   have hne : (mm.2 == "") = false := by simpa using hmsg
   simp only [hne, Bool.false_or, Bool.or_eq_true, beq_iff_eq] at h3
-  have hkind : protectedAt prog 4 r.impl mm.1 ≠ some .addr := by
-    rcases h3 with hp | hp <;> rw [hp] <;> simp
-  exact routed_accepts_only_governance_account r hr sv hsv hpkg mm hmm hmsg hkind env hgov auth W payloadOk s hacc
+  exact routed_accepts_only_governance_account r hr sv hsv hpkg mm hmm hmsg h3 env hgov auth W payloadOk s hacc
 
 /-- the crosschain router: without a route for the message's chain the forwarding implementation errors with the state
 untouched, before any per-chain server runs -/
@@ -368,6 +426,7 @@ theorem no_route_rejected {σ : Type} (P : Program) (env : Env) (auth : Str) (W 
         | false => simp [needsRouteBody] at hn
       | rejectIf _ => simp [needsRouteBody] at hn
       | work _ _ => simp [needsRouteBody] at hn
+      | ensureModuleAcc _ _ => simp [needsRouteBody] at hn
 
 /-! ### who has to have signed: transactions, `MsgExec`, proposals -/
 
@@ -518,6 +577,264 @@ theorem governance_reaches_router {σ : Type} (P : Program) (infos : List MsgInf
 
 /-! ### the dependency handlers (Cosmos SDK / IBC / ethermint), regenerated from the module cache -/
 
+/-! ### the transaction pipeline `baseapp.runTx`, regenerated from the pinned SDK and interpreted (round 4) -/
+
+/-- THE REGENERATED `baseapp.runTx` (statement list of the pinned SDK, interpreted): for every transaction, ante handler,
+message list, environment (block gas, decoding, mempool, post handler) the run ends in one of three ways — nothing
+written at all; or, only after `ValidateBasic` and the ante handler passed, exactly what the ante handler wrote; or the
+closed form `runTxSpec`.  Depends on the ORDER read off the source: `ValidateBasic` before the ante handler, the ante
+branch written after its error check, the message branch written under `err == nil`. -/
+theorem run_tx_gen_outcome {σ : Type} (inp : TxIn σ) (s : σ) : TxOutcome inp s (runTxGen inp s) := by
+  unfold runTxGen runTxProg
+  simp only [C16Tx.runTxProg, C16Tx.runMsgsStopsAtError]
+  repeat (first | rw [skip_step] | (apply peel_env _ _ _ _ _ _ _ (Or.inl rfl)))
+  cases hb : inp.basicOk with
+  | false => exact Or.inl (by simp [runSteps, tStep, hb])
+  | true =>
+    rw [show ∀ ts M, runSteps true inp (.validateBasic :: ts) M = runSteps true inp ts M from
+      fun ts M => by simp [runSteps, tStep, hb]]
+    repeat (first | rw [skip_step] | (apply peel_env _ _ _ _ _ _ _ (Or.inl rfl)))
+    rcases ha : inp.ante s with ⟨ra, s1⟩
+    cases ra with
+    | err => exact Or.inl (by simp [runSteps, tStep, anteRun, anteStep, ha])
+    | ok =>
+      rw [ante_block]
+      simp only [anteRun, anteStep, ha, Bool.false_eq_true, ↓reduceIte, reduceCtorEq, beq_iff_eq]
+      repeat (first | rw [skip_step] | (apply peel_env _ _ _ _ _ _ _ (Or.inr ⟨hb, s1, ha, Or.inl rfl⟩)))
+      rcases hm : loopMsgsG true inp.msgs s1 .ok with ⟨rm, s2⟩
+      cases rm <;> cases hp : inp.postOk <;>
+        exact Or.inr ⟨hb, s1, ha, Or.inr (by simp [runSteps, tStep, runTxSpec, hb, ha, hm, hp])⟩
+
+/-- without environment-decided early returns the regenerated pipeline IS the closed form -/
+theorem run_tx_gen_spec {σ : Type} (inp : TxIn σ) (s : σ) (henv : ∀ i, inp.envReject i = false) :
+    runTxGen inp s = runTxSpec inp s := by
+  unfold runTxGen runTxProg runTxSpec
+  simp only [C16Tx.runTxProg, C16Tx.runMsgsStopsAtError, runSteps, tStep, anteRun, anteStep, henv, Bool.false_eq_true, ↓reduceIte]
+  cases hb : inp.basicOk with
+  | false => simp
+  | true =>
+    simp only [↓reduceIte, Bool.not_true, Bool.false_eq_true]
+    rcases ha : inp.ante s with ⟨ra, s1⟩
+    cases ra with
+    | err => simp
+    | ok =>
+      simp only
+      rcases hm : loopMsgsG true inp.msgs s1 .ok with ⟨rm, s2⟩
+      cases rm <;> cases hp : inp.postOk <;> simp [hm]
+
+/-- a FAILED transaction leaves the state as it was, or as the successful ante handler left it (fee payment, sequence
+number) — never anything one of its messages wrote, whichever message failed and whatever the earlier ones did -/
+theorem run_tx_failure_keeps_only_ante {σ : Type} (inp : TxIn σ) (s : σ) (h : (runTxGen inp s).1 = .err) :
+    (runTxGen inp s).2 = s ∨ ((inp.ante s).1 = .ok ∧ (runTxGen inp s).2 = (inp.ante s).2) := by
+  rcases run_tx_gen_outcome inp s with h0 | ⟨hb, s1, ha, h1 | h1⟩
+  · left; rw [h0]
+  · right; rw [h1, ha]; exact ⟨rfl, rfl⟩
+  · rw [h1] at h ⊢
+    unfold runTxSpec at h ⊢
+    simp only [hb, Bool.not_true, Bool.false_eq_true, ↓reduceIte, ha] at h ⊢
+    rcases hm : loopMsgsG true inp.msgs s1 .ok with ⟨rm, s2⟩
+    cases rm with
+    | err => right; simp
+    | ok =>
+      cases hp : inp.postOk with
+      | true => simp [hm, hp] at h
+      | false => right; simp
+
+/-- a message failing `ValidateBasic` (a malformed authority) stops the transaction before the ante handler runs -/
+theorem run_tx_basic_before_ante {σ : Type} (inp : TxIn σ) (s : σ) (h : inp.basicOk = false) :
+    runTxGen inp s = (.err, s) := by
+  rcases run_tx_gen_outcome inp s with h0 | ⟨hb, _⟩
+  · exact h0
+  · rw [h] at hb; cases hb
+
+/-- a transaction the ante handler refuses (wrong signer) leaves nothing, not even what the ante handler wrote before refusing -/
+theorem run_tx_ante_failure_discards {σ : Type} (inp : TxIn σ) (s : σ) (h : (inp.ante s).1 = .err) :
+    runTxGen inp s = (.err, s) := by
+  rcases run_tx_gen_outcome inp s with h0 | ⟨_, s1, ha, _⟩
+  · exact h0
+  · rw [ha] at h; cases h
+
+/-- the hand-written `txRun` (stages basic / ante / messages on a branch) is the regenerated pipeline run on the
+transaction it describes: its shape is no longer an assumption about the SDK but a consequence of `Gen/C16Tx.lean` -/
+theorem tx_run_is_regenerated_pipeline {σ : Type} (P : Program) (infos : List MsgInfo) (env : Env) (auth : Str) (W : World σ)
+    (payloadOk : Bool) (T m msg : String) (signer : List Nat) (s : σ) :
+    (txRun P infos env auth W payloadOk T m msg signer s).2 =
+      runTxGen (txRunIn P infos env auth W payloadOk T m msg signer) s := by
+  rw [run_tx_gen_spec _ _ (fun _ => rfl)]
+  unfold txRun runTxSpec txRunIn
+  cases hb : basicOk infos env.cfg auth payloadOk msg with
+  | false => simp
+  | true =>
+    simp only [Bool.not_true, Bool.false_eq_true, ↓reduceIte]
+    cases ha : accAddress env.cfg auth with
+    | none => simp
+    | some bz =>
+      by_cases hs : bz = signer
+      · subst hs
+        simp only [bne_self_eq_false, Bool.false_eq_true, ↓reduceIte, beq_self_eq_true, loopMsgsG, onBranch]
+        rcases routed P infos env auth W payloadOk T m msg s with ⟨r, s'⟩
+        cases r <;> simp
+      · have h1 : (bz != signer) = true := by simpa using hs
+        have h2 : (some bz == some signer) = false := by simpa using hs
+        simp [h1, h2]
+/-- obligations over `Gen/C16Tx.lean`: `runMsgs` returns at the first failing message; every statement of `runTx` was
+recognised -/
+theorem run_tx_prog_recognised :
+    C16Tx.runMsgsStopsAtError = true ∧
+    C16Tx.runTxProg.all (fun t => match t with
+      | .other _ => false
+      | .ante as => as.all (fun a => match a with | .other _ => false | _ => true)
+      | _ => true) = true := by decide
+
+/-- why the ORDER matters (1): were the ante branch written BEFORE its error check, a refused transaction would keep
+what the ante handler wrote -/
+theorem ante_write_before_check_leaks :
+    runTxProg (σ := Nat) [.ante [.branch, .call true, .write, .returnIfErr]] true
+      { envReject := fun _ => false, basicOk := true, ante := fun s => (.err, s + 1), msgs := [], postOk := true, unknown := id } 0
+      = (.err, 1) := by decide
+
+/-- why the ORDER matters (2): were the message branch written outside the `err == nil` guard, a transaction whose
+message fails after writing would keep that write -/
+theorem unguarded_write_leaks :
+    runTxProg (σ := Nat) [.branchMsgs, .runMsgs true, .writeAlways] true
+      { envReject := fun _ => false, basicOk := true, ante := fun s => (.ok, s), msgs := [fun s => (.err, s + 1)], postOk := true, unknown := id } 0
+      = (.err, 1) := by decide
+
+/-- why the ORDER matters (3): were `ValidateBasic` run AFTER the ante handler, a transaction with a malformed message
+would still pay its fee (keep the ante handler's writes) -/
+theorem basic_after_ante_leaks :
+    runTxProg (σ := Nat) [.ante [.branch, .call true, .returnIfErr, .write], .validateBasic] true
+      { envReject := fun _ => false, basicOk := false, ante := fun s => (.ok, s + 1), msgs := [], postOk := true, unknown := id } 0
+      = (.err, 1) := by decide
+
+/-- why the BRANCH matters: were the messages run on the block's own state, a failing message's writes would stay -/
+theorem msgs_off_branch_leak :
+    runTxProg (σ := Nat) [.branchMsgs, .runMsgs false, .writeIfOk] true
+      { envReject := fun _ => false, basicOk := true, ante := fun s => (.ok, s), msgs := [fun s => (.err, s + 1)], postOk := true, unknown := id } 0
+      = (.err, 1) := by decide
+
+example : (runTxGen (σ := Nat)
+    { envReject := fun _ => false, basicOk := true, ante := fun s => (.ok, s + 10),
+      msgs := [fun s => (.ok, s + 1), fun s => (.err, s + 5)], postOk := true, unknown := id } 0) = (.err, 10) := by decide
+example : (runTxGen (σ := Nat)
+    { envReject := fun _ => false, basicOk := true, ante := fun s => (.ok, s + 10),
+      msgs := [fun s => (.ok, s + 1), fun s => (.ok, s + 5)], postOk := true, unknown := id } 0) = (.ok, 16) := by decide
+example : ∃ inp : TxIn Nat, (runTxGen inp 0).1 = .err ∧ (inp.ante 0).1 = .ok :=
+  ⟨{ envReject := fun _ => false, basicOk := true, ante := fun s => (.ok, s), msgs := [fun s => (.err, s)], postOk := true, unknown := id },
+    by decide, rfl⟩
+
+/-- a transaction one of whose messages fails in EVERY state fails as a whole and keeps nothing but what the ante handler
+wrote — whatever the messages before it did on the branch, whatever stands after it -/
+theorem tx_with_refused_message_keeps_only_ante {σ : Type} (inp : TxIn σ) (pre post : List (σ → Res × σ))
+    (f : σ → Res × σ) (hm : inp.msgs = pre ++ f :: post) (hf : ∀ x, (f x).1 = .err) (s : σ) :
+    (runTxGen inp s).1 = .err ∧
+      ((runTxGen inp s).2 = s ∨ ((inp.ante s).1 = .ok ∧ (runTxGen inp s).2 = (inp.ante s).2)) := by
+  have hfail : (runTxGen inp s).1 = .err := by
+    rcases run_tx_gen_outcome inp s with h0 | ⟨hb, s1, ha, h1 | h1⟩
+    · rw [h0]
+    · rw [h1]
+    · rw [h1]
+      unfold runTxSpec
+      simp only [hb, Bool.not_true, Bool.false_eq_true, ↓reduceIte, ha]
+      have hl := loopMsgsG_fails_of_refused f hf pre post s1 .ok
+      rw [← hm] at hl
+      rcases hm' : loopMsgsG true inp.msgs s1 .ok with ⟨rm, s2⟩
+      rw [hm'] at hl
+      simp only at hl
+      subst hl
+      rfl
+  exact ⟨hfail, run_tx_failure_keeps_only_ante inp s hfail⟩
+
+/-- SIBLING MESSAGES: a transaction that carries — anywhere among its messages — a privileged message whose authority does
+not decode to the governance account is refused as a whole: the effects of every other message in it (a bank send in
+front of the privileged message, anything behind it) never reach the block's state (monitored on the `blk` lines) -/
+theorem siblings_of_refused_privileged_message_never_survive {σ : Type} (r : Registration) (hr : r ∈ C16Sem.registrations)
+    (sv : Service) (hsv : sv ∈ C16Sem.services) (hpkg : sv.pkg = r.service)
+    (mm : String × String) (hmm : mm ∈ sv.methods) (hmsg : mm.2 ≠ "")
+    (env : Env) (hgov : lowerAsciiStr env.gov = true) (auth : Str) (W : World σ) (payloadOk : Bool)
+    (h : accAddress env.cfg auth ≠ accAddress env.cfg env.gov)
+    (inp : TxIn σ) (pre post : List (σ → Res × σ))
+    (hm : inp.msgs = pre ++ routed prog C16Sem.msgInfos env auth W payloadOk r.impl mm.1 mm.2 :: post) (s : σ) :
+    (runTxGen inp s).1 = .err ∧
+      ((runTxGen inp s).2 = s ∨ ((inp.ante s).1 = .ok ∧ (runTxGen inp s).2 = (inp.ante s).2)) :=
+  tx_with_refused_message_keeps_only_ante inp pre post _ hm
+    (fun x => by rw [routed_rejects_other_accounts r hr sv hsv hpkg mm hmm hmsg env hgov auth W payloadOk x h]) s
+
+example : ∃ (f : Nat → Res × Nat), ∀ x, (f x).1 = .err := ⟨fun x => (.err, x), fun _ => rfl⟩
+
+/-! ### whole blocks (round 4): `FinalizeBlock` runs the transactions one after the other on the block's state -/
+
+/-- the transaction carries an authority message of a registered Msg service, served by the registered concrete type -/
+def txRoutedBy {σ : Type} (t : BlockTx σ) : Prop :=
+  ∃ r ∈ C16Sem.registrations, ∃ sv ∈ C16Sem.services, sv.pkg = r.service ∧
+    ∃ mm ∈ sv.methods, mm.2 ≠ "" ∧ t.T = r.impl ∧ t.m = mm.1 ∧ t.msg = mm.2
+
+/-- the transaction is signed with the key of an account other than the one the keeper's authority spells -/
+def txForeign {σ : Type} (t : BlockTx σ) : Prop :=
+  lowerAsciiStr t.env.gov = true ∧ ∃ g, accAddress t.env.cfg t.env.gov = some g ∧ t.signer ≠ g
+
+/-- one transaction of a block, not signed with the governance key: refused, the state the handlers write untouched -/
+theorem block_tx_foreign_noop {σ : Type} (t : BlockTx σ) (hr : txRoutedBy t) (hf : txForeign t) (s : σ) :
+    (t.run prog C16Sem.msgInfos s).2 = (.err, s) := by
+  obtain ⟨r, hr, sv, hsv, hpkg, mm, hmm, hmsg, hT, hm, hmsgEq⟩ := hr
+  obtain ⟨hgov, g, hg, hs⟩ := hf
+  unfold BlockTx.run
+  rw [hT, hm, hmsgEq]
+  exact signed_tx_needs_governance_key r hr sv hsv hpkg mm hmm hmsg t.env hgov g hg t.signer hs t.auth t.W t.payloadOk s
+
+/-- WHOLE BLOCKS: a block of ANY number of transactions carrying privileged messages (any message types, payloads,
+authorities, interleavings), none of them signed with the governance key, leaves the state the privileged handlers
+write exactly as it was, and every one of its transactions is refused — by induction over the block -/
+theorem block_needs_governance_key {σ : Type} (txs : List (BlockTx σ))
+    (h : ∀ t ∈ txs, txRoutedBy t ∧ txForeign t) (s : σ) :
+    (blockRun prog C16Sem.msgInfos txs s).2 = s ∧
+      ∀ r ∈ (blockRun prog C16Sem.msgInfos txs s).1, r.2 = .err := by
+  induction txs generalizing s with
+  | nil => simp [blockRun]
+  | cons t ts ih =>
+    have ht := h t (by simp)
+    have h1 := block_tx_foreign_noop t ht.1 ht.2 s
+    have ih' := ih (fun t' ht' => h t' (by simp [ht'])) s
+    have e1 : (t.run prog C16Sem.msgInfos s).2.2 = s := by rw [h1]
+    have e2 : (t.run prog C16Sem.msgInfos s).2.1 = .err := by rw [h1]
+    simp only [blockRun, e1, e2]
+    refine ⟨ih'.1, ?_⟩
+    intro r hr
+    rcases List.mem_cons.mp hr with rfl | hr
+    · rfl
+    · exact ih'.2 r hr
+
+/-- the state after a block is the state after ONLY its governance-signed transactions: wherever the foreign ones stand
+in the block — before, between, after — they are no-ops for the state the privileged handlers write (`p` marks the
+transactions that may be governance's; everything it does not mark is routed and foreign) -/
+theorem block_effect_is_governance_txs {σ : Type} (p : BlockTx σ → Bool) (txs : List (BlockTx σ))
+    (h : ∀ t ∈ txs, p t = false → txRoutedBy t ∧ txForeign t) (s : σ) :
+    (blockRun prog C16Sem.msgInfos txs s).2 = (blockRun prog C16Sem.msgInfos (txs.filter p) s).2 := by
+  induction txs generalizing s with
+  | nil => rfl
+  | cons t ts ih =>
+    have ih' := fun s' => ih (fun t' ht' => h t' (by simp [ht'])) s'
+    cases hp : p t with
+    | true =>
+      simp only [List.filter_cons, hp, ↓reduceIte, blockRun]
+      exact ih' _
+    | false =>
+      have ht := h t (by simp) hp
+      have h1 := block_tx_foreign_noop t ht.1 ht.2 s
+      have e1 : (t.run prog C16Sem.msgInfos s).2.2 = s := by rw [h1]
+      simp only [List.filter_cons, hp, Bool.false_eq_true, ↓reduceIte, blockRun, e1]
+      exact ih' s
+
+-- non-vacuity of `txRoutedBy` / `txForeign`: a registered service with an authority method exists; the governance string
+-- of the running app is lower-case ASCII and decodes, and an ordinary 20-byte account differs from what it decodes to
+example : C16Sem.registrations.any (fun r => C16Sem.services.any (fun sv => sv.pkg == r.service &&
+    sv.methods.any (fun mm => mm.2 != ""))) = true := by decide
+example : lowerAsciiStr (strOf "cosmos10d07y265gmmuvt4z0w9aw880jnsr700j6zn9kn") = true ∧
+    (accAddress { pref := strOf "cosmos", minLen := 1, maxLen := 255 } (strOf "cosmos10d07y265gmmuvt4z0w9aw880jnsr700j6zn9kn")).isSome = true ∧
+    accAddress { pref := strOf "cosmos", minLen := 1, maxLen := 255 } (strOf "cosmos10d07y265gmmuvt4z0w9aw880jnsr700j6zn9kn") ≠
+      some (List.replicate 20 1) := by decide +kernel
+example : (blockRun (σ := Nat) prog C16Sem.msgInfos [] 0).2 = 0 := rfl
+
 /-- obligation over `Gen/C16Dep.lean`: every keeper package the app imports could be read, and every dependency handler
 whose request carries an authority — except the listed `MsgExecLegacyContent` — starts (after statements that cannot
 touch state) with a rejecting `if` that must fire whenever the request's authority is not the keeper's authority string
@@ -551,6 +868,54 @@ theorem dependency_handler_rejects {σ : Type} (i : Impl) (hi : i ∈ C16Dep.imp
   simp only [relK, beq_eq_false_iff_ne, ne_eq]
   exact fun he => h he.symm
 
+/-- obligation over `Gen/C16Dep.lean` (round 4): the listed exception (`MsgExecLegacyContent`) has a STATE-READING guard
+program — after statements that cannot touch state it fetches the module account named "gov" from the x/auth state (and
+nothing else) and rejects when that account's address string differs (`!=`) from the request's authority -/
+theorem dependency_exceptions_state_guarded :
+    C16Dep.impls.all (fun i => !depExceptions.contains i.msg ||
+      (depStateGuarded depProg "gov" i.recv i.method && depEnsured depProg i.recv i.method == ["gov"])) = true := by decide
+
+/-- the exception handler, called directly with an authority string other than the keeper's, returns an error and
+leaves the state untouched — provided the x/auth state holds the governance module account (so fetching it creates
+nothing) under the address the keeper's authority spells (both monitored on the running app; the `dcall` lines for
+`MsgExecLegacyContent` tie the model) -/
+theorem dependency_exception_rejects {σ : Type} (i : Impl) (hi : i ∈ C16Dep.impls) (hx : depExceptions.contains i.msg = true)
+    (env : Env) (auth : Str) (W : World σ) (s : σ) (hst : env.stateModAddr "gov" = env.gov)
+    (hacc : ∀ s', W.ensureAcc "gov" s' = s') (h : auth ≠ env.gov) :
+    exec depProg env auth W 4 i.recv i.method s = (.err, s) := by
+  have hk := List.all_eq_true.mp dependency_exceptions_state_guarded i hi
+  simp only [hx, Bool.not_true, Bool.false_or, Bool.and_eq_true, beq_iff_eq] at hk
+  apply depStateGuarded_sound depProg env auth W "gov" hst h 3 i.recv i.method s hk.1
+  intro n hn s'
+  rw [hk.2] at hn
+  simp only [List.mem_singleton] at hn
+  subst hn
+  exact hacc s'
+
+/-- EVERY dependency handler (SDK / IBC / ethermint), no exception left to the monitors: called directly with an authority
+string other than the governance authority it returns an error and leaves the state untouched -/
+theorem every_dependency_handler_rejects {σ : Type} (i : Impl) (hi : i ∈ C16Dep.impls)
+    (env : Env) (auth : Str) (W : World σ) (s : σ) (hst : env.stateModAddr "gov" = env.gov)
+    (hacc : ∀ s', W.ensureAcc "gov" s' = s') (h : auth ≠ env.gov) :
+    exec depProg env auth W 4 i.recv i.method s = (.err, s) := by
+  cases hx : depExceptions.contains i.msg with
+  | false => exact dependency_handler_rejects i hi hx env auth W s h
+  | true => exact dependency_exception_rejects i hi hx env auth W s hst hacc h
+
+/-- why the hypothesis on the x/auth state is needed: were the stored governance account a different address, the
+state-reading guard would let THAT address through (the guard follows the state, not the keeper's configuration) -/
+theorem state_guard_follows_state :
+    ∃ (env : Env) (auth : Str), auth ≠ env.gov ∧
+      execBody (σ := Nat) [] env auth { work := fun _ _ _ s => .ret .ok (s + 1), routeOk := true, pick := 0, unknown := fun s => (.err, s) }
+        "T" "m" (fun _ _ s => (.err, s))
+        [.ensureModuleAcc "gov" "", .rejectIf (.ne (.moduleAccInState "gov") .reqAuthority), .work 2 ""] 0 = (.ok, 1) := by
+  refine ⟨
+    { cfg := { pref := [], minLen := 0, maxLen := 0 }, gov := [1], modAddr := fun _ => [], field := fun _ => [],
+      otherS := fun _ => [], otherB := fun _ => false, callB := fun _ => false, otherH := fun _ => none,
+      listNonEmpty := fun _ => false, payloadGood := true, clob := fun _ => none, stateModAddr := fun _ => [2] }, [2], ?_, ?_⟩
+  · decide
+  · rfl
+
 /-- the one-sided procedure agrees with the exact one on every fx-core guard: whatever `guardCmp` classifies, `mustReject`
 classifies the same way (so the dependency theorem is not a weaker reading of the same shapes) -/
 theorem must_reject_extends_guard_cmp :
@@ -574,8 +939,10 @@ theorem work_before_guard_unprotected :
     ∃ (W : World Nat) (env : Env) (auth : Str), relK env.cfg .strict env.gov auth = false ∧
       execBody [] env auth W "T" "m" (fun _ _ s => (.err, s))
         [.work 0 "if <payload empty> { delete; return ok }", .rejectIf (.ne .keeperAuthority .reqAuthority)] 0 = (.ok, 1) := by
-  refine ⟨⟨fun _ _ _ s => .ret .ok (s + 1), true, 0, fun s => (.err, s)⟩,
-    ⟨⟨[], 0, 0⟩, [1], fun _ => [], fun _ => [], fun _ => [], fun _ => false, fun _ => false, fun _ => none, fun _ => false, true, fun _ => none⟩, [2], ?_, ?_⟩
+  refine ⟨{ work := fun _ _ _ s => .ret .ok (s + 1), routeOk := true, pick := 0, unknown := fun s => (.err, s) },
+    { cfg := { pref := [], minLen := 0, maxLen := 0 }, gov := [1], modAddr := fun _ => [], field := fun _ => [],
+      otherS := fun _ => [], otherB := fun _ => false, callB := fun _ => false, otherH := fun _ => none,
+      listNonEmpty := fun _ => false, payloadGood := true, clob := fun _ => none }, [2], ?_, ?_⟩
   · decide
   · rfl
 
@@ -778,11 +1145,15 @@ example : updateStore ['g'] ['g'] [⟨true, [1], [], [7]⟩] [] = (.ok, [([1], [
 
 example : C16Dep.impls.length ≥ 15 := by decide
 example : C16Dep.impls.any (fun i => depExceptions.contains i.msg) = true := by decide
+example : ∃ env : Env, env.stateModAddr "gov" = env.gov :=
+  ⟨{ cfg := { pref := [], minLen := 0, maxLen := 0 }, gov := [1], modAddr := fun _ => [], field := fun _ => [],
+     otherS := fun _ => [], otherB := fun _ => false, callB := fun _ => false, otherH := fun _ => none,
+     listNonEmpty := fun _ => false, payloadGood := true, clob := fun _ => none, stateModAddr := fun _ => [1] }, rfl⟩
 example : depProtected depProg "github.com/cosmos/cosmos-sdk/x/distribution/keeper.msgServer" "CommunityPoolSpend" = some .strict := by decide
 example : C16Sem.impls.length ≥ 11 := by decide
 example : ∃ gov auth : Str, foldEq gov auth = false := ⟨[103], [48, 120], by decide⟩
 -- the governance module account of a chain with the `cosmos` prefix decodes, and other accounts exist
-example : (accAddress ⟨strOf "cosmos", 1, 255⟩ (strOf "cosmos10d07y265gmmuvt4z0w9aw880jnsr700j6zn9kn")).isSome = true := by decide +kernel
+example : (accAddress { pref := strOf "cosmos", minLen := 1, maxLen := 255 } (strOf "cosmos10d07y265gmmuvt4z0w9aw880jnsr700j6zn9kn")).isSome = true := by decide +kernel
 example : lowerAsciiStr (strOf "cosmos10d07y265gmmuvt4z0w9aw880jnsr700j6zn9kn") = true := by decide
 example : needsRoute prog "x/crosschain/keeper.msgServer" "UpdateParams" = true := by decide
 example : needsRoute prog "x/crosschain/keeper.MsgServer" "UpdateParams" = false := by decide
